@@ -32,6 +32,10 @@ CHECKS = {
    technique="deterministic simulation: the E-WORLD client interleaver varies class-creation order and histories of assignments; per-step reference model (field-wise equality/truthiness computed structurally, default+assign construction, byte-locality of assignment)",
    text="Same world engine with a value-semantics workload: eq/ne, hash, bool, positional/keyword construction, single-field assignment with dumps before/after, cross-cstruct equality. Each op is judged against a small structural model that never calls the structure's own __eq__/__bool__; class-creation order across clients (generated methods are cached by field count and patched per class) is the searched dimension, and each client's log must equal its log when run alone.",
    note="Trusts: field offsets/sizes come from the library's own field table (layout is C04, not claimed); unions are excluded from the equality and locality oracles (bytes-based equality, C11); NaN-holding instances are skipped."),
+ "C09": dict(engine="E-POS", cat="exploration", ref="4.3",
+   technique="deterministic simulation: seeded histories of seek/read/parse/failing-parse operations on one simulated seekable stream, differential oracle against stand-alone parses, re-randomised twin images, input-kind and call-form cross-check",
+   text="Seeded search over (definitions, config, stream image with junk prefix/gap/suffix, history of 2-8 stream operations incl. parses that fail half-way on injected read errors). Every parse at position p must give the value (incl. recorded sizes), consumed length or exception class of a stand-alone parse of image[p:]; one parse per case is repeated with all bytes outside its extent re-randomised; bytes, bytearray, memoryview and stream inputs through all four call forms must agree. Sampling.",
+   note="Trusts: the library's stand-alone parse from offset 0 as reference (differential); aligned definitions only at offsets that are multiples of 16; [EOF] types keep their suffix in the twin."),
 }
 PENDING = {'C05': 'check not built yet in this revision (planned engine, DESIGN 4); not claimed until its check exists', 'C09': 'check not built yet in this revision (planned engine, DESIGN 4); not claimed until its check exists', 'C10': 'check not built yet in this revision (planned engine, DESIGN 4); not claimed until its check exists', 'C11': 'check not built yet in this revision (planned engine, DESIGN 4); not claimed until its check exists', 'C13': 'check not built yet in this revision (planned engine, DESIGN 4); not claimed until its check exists', 'C14': 'check not built yet in this revision (planned engine, DESIGN 4); not claimed until its check exists', 'C15': 'check not built yet in this revision (planned engine, DESIGN 4); not claimed until its check exists', 'C16': 'check not built yet in this revision (planned engine, DESIGN 4); not claimed until its check exists', 'C17': 'check not built yet in this revision (planned engine, DESIGN 4); not claimed until its check exists', 'C18': 'check not built yet in this revision (planned engine, DESIGN 4); not claimed until its check exists'}
 
